@@ -2025,3 +2025,229 @@ Proof.
     [u8 (Z.shiftr (u64 v) 56); u8 (Z.shiftr (u64 v) 48); u8 (Z.shiftr (u64 v) 40); u8 (Z.shiftr (u64 v) 32);
      u8 (Z.shiftr (u64 v) 24); u8 (Z.shiftr (u64 v) 16); u8 (Z.shiftr (u64 v) 8); u8 (u64 v)] 8.
 Qed.
+
+(* ------------------------------------------------------------------ *)
+(** ** A call in any caller, from the theorem about [run] *)
+
+Lemma update_of_lookup {A} x (v w : A) e : lookup x e = Some w -> exists e', update x v e = Some e'.
+Proof.
+  induction e as [|[y u] e IH]; cbn [lookup update]; [discriminate|].
+  destruct (String.eqb x y); [eauto|]. intros H. destruct (IH H) as (e' & ->). eauto.
+Qed.
+
+Lemma call_of_run_sv f fn t n' e x a z t' c :
+  lookup f helpers_ir = Some fn -> f_params fn = [("self_p", PByRef); ("value", PByVal t)]%string ->
+  (2 <= n')%nat -> lookup x e = Some c -> eval helpers_ir n' e a = ROk (e, z) ->
+  call helpers_ir (S n') e f [ARef (PVar x); AVal t' a] =
+  match run helpers_ir (S n') f [c; VInt z] with
+  | ROk (r, v :: _) => match update x v e with Some e' => ROk (e', r) | None => RFail (FStuck "update") end
+  | ROk (r, []) => RFail (FStuck "copy-out")
+  | RFail fl => RFail fl
+  end.
+Proof.
+  intros Hf Hp Hn Hx Ha. unfold run. rewrite Hf, Hp. rcbn.
+  rewrite !call_S. unfold call_body. rewrite Hf, Hp.
+  wcbn. rewrite !resolve_PVar by lia. wcbn.
+  unfold env_get at 1. rewrite Hx. wcbn. rewrite Ha. wcbn.
+  erewrite (eval_read_var_ge _ _ _ "$value") by (try reflexivity; lia). rcbn.
+  destruct (exec_list helpers_ir n' _ (f_body fn)) as [[frame' fl]|ff]; wcbn; [|reflexivity].
+  destruct (lookup "self_p" frame') as [v|]; rcbn; [|reflexivity].
+  unfold env_set at 1. rewrite Hx. rcbn.
+  destruct (update_of_lookup x v c e Hx) as (e' & Hu). rewrite Hu. rcbn.
+  destruct fl as [| |[r|]]; destruct (f_ret fn); rcbn; rewrite ?Hu; reflexivity.
+Qed.
+
+Lemma call_of_run_s f fn n' e x c :
+  lookup f helpers_ir = Some fn -> f_params fn = [("self_p", PByRef)]%string ->
+  (1 <= n')%nat -> lookup x e = Some c ->
+  call helpers_ir (S n') e f [ARef (PVar x)] =
+  match run helpers_ir (S n') f [c] with
+  | ROk (r, v :: _) => match update x v e with Some e' => ROk (e', r) | None => RFail (FStuck "update") end
+  | ROk (r, []) => RFail (FStuck "copy-out")
+  | RFail fl => RFail fl
+  end.
+Proof.
+  intros Hf Hp Hn Hx. unfold run. rewrite Hf, Hp. rcbn.
+  rewrite !call_S. unfold call_body. rewrite Hf, Hp.
+  wcbn. rewrite !resolve_PVar by lia. wcbn.
+  unfold env_get at 1. rewrite Hx. rcbn.
+  destruct (exec_list helpers_ir n' _ (f_body fn)) as [[frame' fl]|ff]; wcbn; [|reflexivity].
+  destruct (lookup "self_p" frame') as [v|]; rcbn; [|reflexivity].
+  unfold env_set at 1. rewrite Hx. rcbn.
+  destruct (update_of_lookup x v c e Hx) as (e' & Hu). rewrite Hu. rcbn.
+  destruct fl as [| |[r|]]; destruct (f_ret fn); rcbn; rewrite ?Hu; reflexivity.
+Qed.
+
+(* ------------------------------------------------------------------ *)
+(** ** encoder_append_intN *)
+
+Definition sv_env (c : val) (w : Z) : env := [("self_p", c); ("value", VInt w)]%string.
+
+Lemma in_frag_add M c w t tu k : (body_fuel <= M)%nat -> ity_signed t = true ->
+  in_range t (conv tu w + k) = true ->
+  eval helpers_ir M (sv_env c w) (EBin OAdd t (ECast tu (ERead (PVar "value"))) (EConst k)) =
+  ROk (sv_env c w, conv tu w + k).
+Proof.
+  intros H Hs Hr. fuel_split M H. symex. unfold arith. rewrite Hs, Hr. reflexivity.
+Qed.
+
+Ltac in_prologue f ps_ :=
+  unfold run;
+  change (lookup f helpers_ir) with (Some (fn_of f));
+  cbv iota beta;
+  change (f_params (fn_of f)) with ps_;
+  rcbn; rewrite call_S; unfold call_body;
+  change (lookup f helpers_ir) with (Some (fn_of f));
+  cbv iota beta;
+  change (f_params (fn_of f)) with ps_;
+  change (f_ret (fn_of f)) with (@None ity).
+
+Definition S5 (n : nat) : nat := S (S (S (S (S n)))).
+
+Theorem ir_encoder_append_int8_fuel : forall L b sz ps v, (body_fuel <= L)%nat ->
+  in_s64 sz = true -> in_s64 ps = true ->
+  run helpers_ir (S5 (S5 (S8 L))) "encoder_append_int8"%string [cursor_val b sz ps; VInt v] =
+  match append_int8 (mkCur b sz ps) v with
+  | COk s' => ROk (None, [cursor_val (buf s') (size s') (pos s'); VInt v])
+  | COob => RFail FOob | CUb => RFail FUb end.
+Proof.
+  intros L b sz ps v HL Hsz Hps. unfold S5 at 1.
+  in_prologue "encoder_append_int8"%string [("self_p", PByRef); ("value", PByVal I8)]%string.
+  change (f_locals (fn_of "encoder_append_int8")) with (@nil (string * val)).
+  change (f_body (fn_of "encoder_append_int8")) with
+    [SExpr (ECall "encoder_append_uint8"
+       [ARef (PVar "self_p"); AVal U8 (EBin OAdd I32 (ECast U8 (ERead (PVar "value"))) (EConst 128))])].
+  rcbn. rewrite resolve_PVar by lia. rcbn.
+  erewrite (eval_read_var_ge _ _ _ "$value") by (try reflexivity; lia). rcbn.
+  change (conv I8 v) with (s8 v).
+  rewrite exec_list_cons, exec_SExpr, eval_ECall.
+  assert (HM : (body_fuel <= S5 (S8 L))%nat) by (unfold S5, S8; lia).
+  rewrite (call_of_run_sv "encoder_append_uint8" (fn_of "encoder_append_uint8") U8 (S5 (S8 L))
+             (sv_env (cursor_val b sz ps) (s8 v)) "self_p" _ (u8 (s8 v) + 128) U8 (cursor_val b sz ps)
+             eq_refl eq_refl ltac:(unfold body_fuel in HM; lia) eq_refl).
+  2:{ apply (in_frag_add _ _ _ I32 U8 128 HM eq_refl).
+      change (conv U8 (s8 v)) with (u8 (s8 v)). unfold u8, in_range. cbn [ity_signed ity_bits ity_min ity_max].
+      change (2 ^ (32 - 1)) with 2147483648. lia. }
+  unfold S5 at 1. rewrite (ir_encoder_append_uint8_fuel L b sz ps (u8 (s8 v) + 128) HL Hsz Hps).
+  unfold append_int8.
+  destruct (append_uint8 {| buf := b; size := sz; pos := ps |} (u8 (s8 v) + 128)) as [s'| |];
+    [|reflexivity|reflexivity].
+  unfold sv_env. rcbn. rewrite exec_list_nil. rcbn. reflexivity.
+Qed.
+
+Theorem ir_encoder_append_int16_fuel : forall L b sz ps v, (body_fuel <= L)%nat ->
+  in_s64 sz = true -> in_s64 ps = true ->
+  run helpers_ir (S (S5 (S5 (S8 L)))) "encoder_append_int16"%string [cursor_val b sz ps; VInt v] =
+  match append_int16 (mkCur b sz ps) v with
+  | COk s' => ROk (None, [cursor_val (buf s') (size s') (pos s'); VInt v])
+  | COob => RFail FOob | CUb => RFail FUb end.
+Proof.
+  intros L b sz ps v HL Hsz Hps. unfold S5 at 1.
+  in_prologue "encoder_append_int16"%string [("self_p", PByRef); ("value", PByVal I16)]%string.
+  change (f_locals (fn_of "encoder_append_int16")) with (@nil (string * val)).
+  change (f_body (fn_of "encoder_append_int16")) with
+    [SExpr (ECall "encoder_append_uint16"
+       [ARef (PVar "self_p"); AVal U16 (EBin OAdd I32 (ECast U16 (ERead (PVar "value"))) (EConst 32768))])].
+  rcbn. rewrite resolve_PVar by lia. rcbn.
+  erewrite (eval_read_var_ge _ _ _ "$value") by (try reflexivity; lia). rcbn.
+  change (conv I16 v) with (s16 v).
+  rewrite exec_list_cons, exec_SExpr, eval_ECall.
+  assert (HM : (body_fuel <= S (S5 (S8 L)))%nat) by (unfold S5, S8; lia).
+  rewrite (call_of_run_sv "encoder_append_uint16" (fn_of "encoder_append_uint16") U16 (S (S5 (S8 L)))
+             (sv_env (cursor_val b sz ps) (s16 v)) "self_p" _ (u16 (s16 v) + 32768) U16 (cursor_val b sz ps)
+             eq_refl eq_refl ltac:(unfold body_fuel in HM; lia) eq_refl).
+  2:{ apply (in_frag_add _ _ _ I32 U16 32768 HM eq_refl).
+      change (conv U16 (s16 v)) with (u16 (s16 v)). unfold u16, in_range.
+      cbn [ity_signed ity_bits ity_min ity_max]. change (2 ^ (32 - 1)) with 2147483648. lia. }
+  unfold S5 at 1. rewrite (ir_encoder_append_uint16_fuel L b sz ps (u16 (s16 v) + 32768) HL Hsz Hps).
+  unfold append_int16.
+  destruct (append_uint16 {| buf := b; size := sz; pos := ps |} (u16 (s16 v) + 32768)) as [s'| |];
+    [|reflexivity|reflexivity].
+  unfold sv_env. rcbn. rewrite exec_list_nil. rcbn. reflexivity.
+Qed.
+
+Theorem ir_encoder_append_int32_fuel : forall L b sz ps v, (body_fuel <= L)%nat ->
+  in_s64 sz = true -> in_s64 ps = true ->
+  run helpers_ir (S (S (S (S5 (S5 (S8 L)))))) "encoder_append_int32"%string [cursor_val b sz ps; VInt v] =
+  match append_int32 (mkCur b sz ps) v with
+  | COk s' => ROk (None, [cursor_val (buf s') (size s') (pos s'); VInt v])
+  | COob => RFail FOob | CUb => RFail FUb end.
+Proof.
+  intros L b sz ps v HL Hsz Hps. unfold S5 at 1.
+  in_prologue "encoder_append_int32"%string [("self_p", PByRef); ("value", PByVal I32)]%string.
+  change (f_locals (fn_of "encoder_append_int32")) with (@nil (string * val)).
+  change (f_body (fn_of "encoder_append_int32")) with
+    [SExpr (ECall "encoder_append_uint32"
+       [ARef (PVar "self_p"); AVal U32 (EBin OAdd I64 (ECast U32 (ERead (PVar "value"))) (EConst 2147483648))])].
+  rcbn. rewrite resolve_PVar by lia. rcbn.
+  erewrite (eval_read_var_ge _ _ _ "$value") by (try reflexivity; lia). rcbn.
+  change (conv I32 v) with (s32 v).
+  rewrite exec_list_cons, exec_SExpr, eval_ECall.
+  assert (HM : (body_fuel <= S (S (S (S5 (S8 L)))))%nat) by (unfold S5, S8; lia).
+  rewrite (call_of_run_sv "encoder_append_uint32" (fn_of "encoder_append_uint32") U32 (S (S (S (S5 (S8 L)))))
+             (sv_env (cursor_val b sz ps) (s32 v)) "self_p" _ (u32 (s32 v) + 2147483648) U32
+             (cursor_val b sz ps) eq_refl eq_refl ltac:(unfold body_fuel in HM; lia) eq_refl).
+  2:{ apply (in_frag_add _ _ _ I64 U32 2147483648 HM eq_refl).
+      change (conv U32 (s32 v)) with (u32 (s32 v)). change (in_range I64 ?z) with (in_s64 z).
+      unfold u32, in_s64. lia. }
+  unfold S5 at 1. rewrite (ir_encoder_append_uint32_fuel L b sz ps (u32 (s32 v) + 2147483648) HL Hsz Hps).
+  unfold append_int32.
+  destruct (append_uint32 {| buf := b; size := sz; pos := ps |} (u32 (s32 v) + 2147483648)) as [s'| |];
+    [|reflexivity|reflexivity].
+  unfold sv_env. rcbn. rewrite exec_list_nil. rcbn. reflexivity.
+Qed.
+
+Definition i64_env (c : val) (w : Z) (vx : val) : env :=
+  [("self_p", c); ("value", VInt w); ("u64_value", vx)]%string.
+
+Lemma i64_frag1 M c w vx : (body_fuel <= M)%nat ->
+  exec helpers_ir M (i64_env c w vx) (SAssign (PVar "u64_value") U64 (ECast U64 (ERead (PVar "value")))) =
+  ROk (i64_env c w (VInt (u64 w)), FNormal).
+Proof. intros H. fuel_split M H. step2. rewrite u64_u64. reflexivity. Qed.
+
+Lemma i64_frag2 M c w x : (body_fuel <= M)%nat ->
+  exec helpers_ir M (i64_env c w (VInt x))
+    (SAssign (PVar "u64_value") U64 (EBin OAdd U64 (ERead (PVar "u64_value")) (EConst 9223372036854775808))) =
+  ROk (i64_env c w (VInt (u64 (x + 9223372036854775808))), FNormal).
+Proof. intros H. fuel_split M H. step2. rewrite u64_u64. reflexivity. Qed.
+
+Definition S13 (n : nat) : nat := S (S (S (S5 (S5 n)))).
+
+Theorem ir_encoder_append_int64_fuel : forall L b sz ps v, (body_fuel <= L)%nat ->
+  in_s64 sz = true -> in_s64 ps = true ->
+  run helpers_ir (S (S5 (S13 (S8 L)))) "encoder_append_int64"%string [cursor_val b sz ps; VInt v] =
+  match append_int64 (mkCur b sz ps) v with
+  | COk s' => ROk (None, [cursor_val (buf s') (size s') (pos s'); VInt v])
+  | COob => RFail FOob | CUb => RFail FUb end.
+Proof.
+  intros L b sz ps v HL Hsz Hps. unfold S5 at 1.
+  in_prologue "encoder_append_int64"%string [("self_p", PByRef); ("value", PByVal I64)]%string.
+  change (f_locals (fn_of "encoder_append_int64")) with [("u64_value", VUndef)]%string.
+  change (f_body (fn_of "encoder_append_int64")) with
+    [SAssign (PVar "u64_value") U64 (ECast U64 (ERead (PVar "value")));
+     SAssign (PVar "u64_value") U64 (EBin OAdd U64 (ERead (PVar "u64_value")) (EConst 9223372036854775808));
+     SExpr (ECall "encoder_append_uint64" [ARef (PVar "self_p"); AVal U64 (ERead (PVar "u64_value"))])].
+  rcbn. rewrite resolve_PVar by lia. rcbn.
+  erewrite (eval_read_var_ge _ _ _ "$value") by (try reflexivity; lia). rcbn.
+  change (conv I64 v) with (s64 v).
+  change [("self_p"%string, cursor_val b sz ps); ("value"%string, VInt (s64 v)); ("u64_value"%string, VUndef)]
+    with (i64_env (cursor_val b sz ps) (s64 v) VUndef).
+  assert (HM : (body_fuel <= S13 (S8 L))%nat) by (unfold S13, S5, S8; lia).
+  rewrite exec_list_cons, i64_frag1 by lia. rcbn.
+  rewrite exec_list_cons, i64_frag2 by lia. rcbn.
+  rewrite exec_list_cons, exec_SExpr, eval_ECall.
+  set (z := u64 (u64 (s64 v) + 9223372036854775808)).
+  set (n12 := S (S (S (S (S (S (S (S (S (S (S (S (S8 L))))))))))))).
+  change (S13 (S8 L)) with (S n12).
+  assert (Hn12 : (2 <= n12)%nat) by (unfold n12; lia).
+  rewrite (call_of_run_sv "encoder_append_uint64" (fn_of "encoder_append_uint64") U64 n12
+             (i64_env (cursor_val b sz ps) (s64 v) (VInt z)) "self_p" (ERead (PVar "u64_value")) z U64
+             (cursor_val b sz ps) eq_refl eq_refl Hn12 eq_refl
+             (eval_read_var_ge helpers_ir n12 (i64_env (cursor_val b sz ps) (s64 v) (VInt z)) "u64_value" z Hn12 eq_refl)).
+  unfold n12.
+  rewrite (ir_encoder_append_uint64_fuel L b sz ps z HL Hsz Hps).
+  unfold append_int64. fold z.
+  destruct (append_uint64 {| buf := b; size := sz; pos := ps |} z) as [s'| |];
+    [|reflexivity|reflexivity].
+  unfold i64_env. rcbn. rewrite exec_list_nil. rcbn. reflexivity.
+Qed.
